@@ -122,6 +122,17 @@ class Gen:
             return {'t': 'var', 'n': r.choice(['x', 'y', 'z', 'tt', 'cost'])}
         return {'t': 'num', 'v': r.choice([0, 1, 2, -1, 3, 0.5, 10, -4])}
 
+    def top(self, node):
+        """sometimes make MonteCarlo (over a draw) or PanelLikelihoodTrajectory the TOP node of an
+        alternative / operand: operations that search a class must see the selected node itself"""
+        r = self.rng
+        if self.value_mode or r.random() >= 0.18:
+            return node
+        if r.random() < 0.75:
+            d = {'t': 'draws', 'n': r.choice(['xi', 'eta']), 'type': r.choice(['NORMAL', 'UNIFORM'])}
+            return {'t': 'un', 'op': 'MonteCarlo', 'k': [{'t': 'bin', 'op': r.choice(['Times', 'Plus']), 'k': r.sample([node, d], 2)}]}
+        return {'t': 'un', 'op': 'PanelTraj', 'k': [node]}
+
     def combine(self, parts, depth=0):
         """one expression containing every element of parts exactly once"""
         r = self.rng
@@ -236,7 +247,7 @@ class Gen:
             members = []
             for k, sname in enumerate(c['specs']):
                 parts = [build_cat(x) if kind == 'cat' else x for kind, x in slots[(i, k)]]
-                members.append([sname, self.combine(parts, depth=1)])
+                members.append([sname, self.top(self.combine(parts, depth=1))])
             node = {'t': 'cat', 'name': c['name'], 'ctrl': c['ctrl'] if c['explicit'] else None,
                     'm': members, 'ctor': c['ctor']}
             built[i] = node
@@ -318,7 +329,7 @@ def expand(node, spec):
     """the structure with helper references replaced by the catalogs the helpers are documented
     to return, and every catalog carrying its controller name (harness-side, independent)"""
     t = node['t']
-    if t in ('num', 'beta', 'var'):
+    if t in ('num', 'beta', 'var', 'draws'):
         return node
     if t == 'cat':
         return {'t': 'cat', 'name': node['name'], 'ctrl': node['ctrl'] if node.get('ctrl') is not None else node['name'],
@@ -375,7 +386,7 @@ def controllers_of(x):
 def hand_subst(node, cfg):
     """the formula written out by hand (catalog-free spec node) for the configuration cfg (dict)"""
     t = node['t']
-    if t in ('num', 'beta', 'var'):
+    if t in ('num', 'beta', 'var', 'draws'):
         return node
     if t == 'cat':
         want = cfg[node['ctrl']]
@@ -395,6 +406,30 @@ def hand_subst(node, cfg):
     return out
 
 
+ENGINE_BIN = {'Plus', 'Minus', 'Times', 'BMin', 'BMax'}
+ENGINE_UN = {'UMinus', 'Sin', 'Cos'}
+
+
+def engine_ok(node, under_mc=False):
+    """catalog-free formula that is safe to hand to the C++ engine on the 2-row database (the engine
+    may crash the process on ill-formed formulas): total operators only, draws only under exactly
+    one MonteCarlo, no panel trajectory"""
+    t = node['t']
+    if t in ('num', 'beta', 'var'):
+        return True
+    if t == 'draws':
+        return under_mc
+    if t == 'bin':
+        return node['op'] in ENGINE_BIN and all(engine_ok(k, under_mc) for k in node['k'])
+    if t == 'un':
+        if node['op'] == 'MonteCarlo':
+            return (not under_mc) and engine_ok(node['k'][0], True)
+        return node['op'] in ENGINE_UN and engine_ok(node['k'][0], under_mc)
+    if t in ('powc', 'msum'):
+        return all(engine_ok(k, under_mc) for k in node['k'])
+    return False
+
+
 def to_tree(node):
     """catalog-free spec node -> the JSON tree format of bio_bridge.expr_to_json"""
     t = node['t']
@@ -404,6 +439,8 @@ def to_tree(node):
         return {'h': ['Beta', node['n'], bool(node.get('fixed'))], 'k': []}
     if t == 'var':
         return {'h': ['Var', node['n']], 'k': []}
+    if t == 'draws':
+        return {'h': ['Draws', node['n'], node['type']], 'k': []}
     if t == 'bin':
         return {'h': ['Bin', node['op']], 'k': [to_tree(k) for k in node['k']]}
     if t == 'un':
@@ -460,7 +497,7 @@ def spec_to_coq(node, spec):
         h = spec['helpers'][node['h']]
         return (f'(gas_catalog {coq_string(h["gname"])} {coq_beta(h["betas"][node["b"]])} {coq_string(node["alt"])} '
                 f'{coq_segs(h["segs"])} {cz(h["max"])})')
-    if t in ('num', 'beta', 'var'):
+    if t in ('num', 'beta', 'var', 'draws'):
         head = to_tree(node)['h']
         return f'(CNode {bridge.head_to_coq(head)} [])'
     if t == 'loglogit':
@@ -687,7 +724,7 @@ def plan_case(rng, spec, quick, value_mode):
         listing = [list(p) for p in cfg]
         rng.shuffle(listing)
         hand = hand_subst(x, dict(cfg))
-        configure.append({'sels': listing, 'value': value_mode, 'hand': hand})
+        configure.append({'sels': listing, 'value': value_mode, 'hand': hand, 'engine': engine_ok(hand)})
     ids = [canon_id(c) for c in product]
     roundtrip = [canon_id(c) for c in chosen]
     # a few ids written in a different order / with a repeated controller (last one wins)
@@ -818,11 +855,19 @@ def check_structure(ctx, sts, idx, case, info, r, items, origin):
                 break
         cnt = ctx.notes.setdefault('c16_delegated_views', {'signatures_compared': 0, 'signature_unavailable': 0})
         cnt['signatures_compared' if isinstance((o.get('view') or {}).get('sig'), str) else 'signature_unavailable'] += 1
-        if o.get('view') != o.get('hand_view'):
+        ov, hv = o.get('view') or {}, o.get('hand_view') or {}
+        if (isinstance(ov, dict) and isinstance(hv, dict) and ov != hv and spec['formula']['t'] in ('cat', 'seg', 'gas')
+                and {k for k in set(ov) | set(hv) if ov.get(k) != hv.get(k)} == {'engine'}
+                and isinstance(ov.get('engine'), dict) and isinstance(hv.get('engine'), list)):
+            ctx.violation('C16/configure/top-level-catalog/not-evaluable',
+                          'a formula whose top node is a catalog cannot be evaluated by get_value_c(prepare_ids=True) while the '
+                          'hand-written formula of the same configuration can', w, hv.get('engine'), ov.get('engine'))
+        elif o.get('view') != o.get('hand_view'):
             # get_children() / get_signature() (after set_id_manager) of the configured formula, object
             # identities eliminated, against the same operations on the hand-written formula
             ctx.violation('C16/configure/delegated-view-differs',
-                          'get_children / get_signature of the configured formula differ from those of the hand-written formula',
+                          'delegated operations (get_children, get_signature, embed_expression, requires_draws, check_*, value '
+                          'through the engine) of the configured formula differ from those of the hand-written formula',
                           w, o.get('hand_view'), o.get('view'))
         if q.get('value'):
             # both numbers come from the library's own get_value on structurally identical trees
@@ -1016,7 +1061,7 @@ def resolve(node, objs):
     t = node['t']
     if t == 'ref':
         return objs[node['id']]
-    if t in ('num', 'beta', 'var'):
+    if t in ('num', 'beta', 'var', 'draws'):
         return node
     if t in ('seg', 'gas'):
         return expand(node, {'helpers': objs['helpers']})
@@ -1097,7 +1142,7 @@ def gen_history(rng, quick, value_mode):
         members = []
         for s in specs:
             parts = some_refs(1) if (nid[0] > 1 and rng.random() < 0.2) else []
-            members.append([s, g.combine(parts, depth=1)])
+            members.append([s, g.top(g.combine(parts, depth=1))])
         node = {'t': 'cat', 'name': name, 'ctrl': ctrl, 'm': members, 'ctor': rng.choice(['list', 'dict'])}
         objs[i] = resolve(node, objs)
         steps.append({'do': 'build', 'id': i, 'node': node})
@@ -1579,8 +1624,44 @@ def malformed_specs(rng, n):
     specs.append(('shared', 'helpers/catalog-attached-to-the-helper-controller',
                   {'controllers': {}, 'helpers': [seg('G')], 'attach_helper': True,
                    'formula': {'t': 'bin', 'op': 'Minus', 'k': [s0, {'t': 'seg', 'h': 0, 'b': 1}]}}))
+    # a catalog attached to a shared controller must list the controller's specifications in the
+    # controller's ORDER (selection is by position): permutations, other names, other lengths
+    for ctor in ('list', 'dict'):
+        for size in (2, 3, 4):
+            names = rng.sample(['linear', 'log', 'sq', 'A', 'b c'], size)
+            perms = [list(p) for p in itertools.permutations(names) if list(p) != names]
+            for perm in rng.sample(perms, min(len(perms), 3)):
+                for first_ok in (True, False):
+                    good = {'t': 'cat', 'name': 'time_spec', 'ctrl': 'g', 'ctor': ctor, 'm': members(names, leaves)}
+                    bad = {'t': 'cat', 'name': 'cost_spec', 'ctrl': 'g', 'ctor': ctor, 'm': members(perm, leaves)}
+                    pair_ = [good, bad] if first_ok else [bad, good]
+                    for pname, f in [('operands', {'t': 'bin', 'op': rng.choice(BINOPS), 'k': pair_}),
+                                     ('nested', wrap(nest(pair_[0], pair_[1], rng.randrange(size)))),
+                                     ('alone', wrap(bad))]:
+                        specs.append(('order', f'permuted-{ctor}-{size}/{pname}',
+                                      {'controllers': {'g': names}, 'helpers': [], 'formula': f}))
+        names = ['linear', 'log', 'sq']
+        for what, other in (('other-name', ['linear', 'log', 'cube']), ('shorter', ['linear', 'log']),
+                            ('longer', ['linear', 'log', 'sq', 'A'])):
+            bad = {'t': 'cat', 'name': 'cost_spec', 'ctrl': 'g', 'ctor': ctor, 'm': members(other, leaves)}
+            good = {'t': 'cat', 'name': 'time_spec', 'ctrl': 'g', 'ctor': ctor, 'm': members(names, leaves)}
+            specs.append(('order', f'{what}-{ctor}', {'controllers': {'g': names}, 'helpers': [],
+                                                      'formula': {'t': 'bin', 'op': 'Plus', 'k': [good, bad]}}))
+    # ... also on a helper's controller
+    hs = seg('G')
+    hnames = [nm for nm, _ in py_seg_catalog(hs, hs['betas'][0])['m']]
+    specs.append(('order', 'permuted-on-helper-controller',
+                  {'controllers': {}, 'helpers': [hs],
+                   'formula': {'t': 'bin', 'op': 'Plus', 'k': [s0, {'t': 'cat', 'name': 'extra', 'ctrl': 'G', 'm': members(hnames[::-1], leaves)}]}}))
+    specs.append(('shared', 'same-order-on-helper-controller',
+                  {'controllers': {}, 'helpers': [hs],
+                   'formula': {'t': 'bin', 'op': 'Plus', 'k': [s0, {'t': 'cat', 'name': 'extra', 'ctrl': 'G', 'm': members(hnames, leaves)}]}}))
     if len(specs) > n:
-        keep = [s for s in specs if s[1].startswith('helpers/')]
+        order = [s for s in specs if s[0] == 'order']
+        specs = [s for s in specs if s[0] != 'order'] + rng.sample(order, min(len(order), max(12, n // 4)))
+        n += max(12, n // 4)
+    if len(specs) > n:
+        keep = [s for s in specs if s[1].startswith('helpers/') or s[0] == 'order']
         rest = [s for s in specs if not s[1].startswith('helpers/')]
         specs = keep + rng.sample(rest, max(0, n - len(keep)))
     return specs
@@ -1595,7 +1676,14 @@ def stream_malformed(ctx):
                     'all_controllers is evaluated on the controller-object skeleton; non-trivial = always')
     rng = ctx.sub_rng('malformed')
     specs = malformed_specs(rng, ctx.n(60, 400))
-    cases = [{'spec': spec, 'configure': [], 'iterate': 0, 'roundtrip': [], 'ops': None} for _, _, spec in specs]
+    cases = []
+    cases_by_spec = {}
+    for kind, _, spec in specs:
+        conf = []
+        if kind == 'order':
+            conf = [{'sels': [['g', s]]} for s in spec['controllers'].get('g', [])]
+        cases.append({'spec': spec, 'configure': conf, 'iterate': 0, 'roundtrip': [], 'ops': None})
+        cases_by_spec[id(spec)] = cases[-1]
     B = max(1, (len(cases) + 15) // 16)
     res = []
     for out in ctx.impl_parallel('c16_catalog.py', [{'mode': 'structure', 'cases': cases[i:i + B]}
@@ -1610,6 +1698,21 @@ def stream_malformed(ctx):
         if not accepted and e != 'BiogemeError':
             ctx.violation(f'C16/malformed/{kind}/unexpected-exception', f'{where}: raised {e} instead of BiogemeError', wit,
                           'BiogemeError' if kind == 'dup' else 'accepted', r)
+            continue
+        if kind == 'order':
+            if accepted:
+                # show the consequence: some configuration where catalogs of the controller disagree
+                bad = None
+                for q, o in zip(cases_by_spec[id(spec)]['configure'], r.get('configured', [])):
+                    sel = {(c, s) for _, c, s, _, _ in o.get('selected', [])}
+                    if len({s for c, s in sel if c == q['sels'][0][0]}) > 1:
+                        bad = {'configuration': q['sels'], 'selected': o.get('selected')}
+                        break
+                ctx.violation('C16/malformed/incompatible-catalog-accepted',
+                              f'{where}: a catalog that does not list the specifications of its controller in the controller\'s order '
+                              'is accepted; selection is by position, so catalogs of one controller take different-named alternatives',
+                              wit, 'BiogemeError (Incompatible IDs) when the catalog is created', bad or {'accepted': True},
+                              how='build witness.spec with lib/impl/c16_catalog.py (mode structure)')
             continue
         if kind == 'dup' and accepted:
             ctx.violation('C16/malformed/duplicate-controller-name-accepted',
